@@ -4,12 +4,12 @@ CONSTANTS
   LoopVals = {"y"}
   Roots = {"$resp", "x", "y"}
   RootSels = {"none"}
-  Attrs1 = {"items", "subs", "by_name", "tag"}
+  Attrs1 = {"items", "subs", "tag", "by_name"}
   Sels1 = {"none"}
   Attrs2 = {}
   Len2 = 1
   Kinds = {"print", "loop"}
-  LoopForms = {{"collection", "variable", "body"}, {"map", "key", "value", "body"}, {"map", "value", "body"}}
+  LoopForms = {{"collection", "variable", "body"}, {"map", "value", "body"}}
   ReqKeys = {}
   MaxReq = 0
   MaxLen = 3
